@@ -528,7 +528,7 @@ class MemDatagramListener(_Scripted, AsyncDatagramListener[tuple]):
 class VerifBackend(AsyncIOBackend):
     """The real asyncio backend, except that listeners/connections are in-memory objects provided by the harness."""
 
-    __slots__ = ("tcp_listeners", "udp_listeners", "connect_transports", "listener_factory_hook", "created")
+    __slots__ = ("tcp_listeners", "udp_listeners", "connect_transports", "listener_factory_hook", "created", "connect_gate")
 
     def __init__(self) -> None:
         super().__init__()
@@ -537,6 +537,7 @@ class VerifBackend(AsyncIOBackend):
         self.connect_transports: deque[MemStreamTransport] = deque()
         self.listener_factory_hook: Callable[[], Coroutine[Any, Any, None]] | None = None
         self.created: list[Any] = []
+        self.connect_gate: asyncio.Event | None = None  # when set: create_tcp_connection() waits for it (a slow connect)
 
     async def create_tcp_listeners(self, host: Any, port: int, backlog: int, *, reuse_port: bool = False) -> Any:
         if self.listener_factory_hook is not None:
@@ -556,6 +557,8 @@ class VerifBackend(AsyncIOBackend):
 
     async def create_tcp_connection(self, host: str, port: int, *, local_address: Any = None, happy_eyeballs_delay: Any = None) -> Any:
         await asyncio.sleep(0)
+        if self.connect_gate is not None:
+            await self.connect_gate.wait()
         if not self.connect_transports:
             raise ConnectionRefusedError(_errno.ECONNREFUSED, "no in-memory transport prepared")
         return self.connect_transports.popleft()
